@@ -486,3 +486,24 @@ Example no_overflow_example :
   Forall (fun w => 0 <= w <= max_weight) [1000000; 999999; 0; 1] /\ 0 < zsum [1000000; 999999; 0; 1] /\
   shares [1000000; 999999; 0; 1] = [5000; 4999; 0; 1].
 Proof. split; [repeat constructor; unfold max_weight; lia|]. split; vm_compute; reflexivity. Qed.
+
+Lemma list_eqb_string_refl : forall l : list string, list_eqb String.eqb l l = true.
+Proof. induction l as [|x l IH]; cbn [list_eqb]; auto. rewrite String.eqb_refl. exact IH. Qed.
+
+(* the block the model renders for a rule with several backends passes the whole per-block oracle *)
+Lemma oracle_block_sound : forall g v,
+  (2 <= List.length (g_backends g))%nat -> nonneg (weights (g_backends g)) ->
+  exists ds, distributions (g_backends g) = Some ds /\
+             oracle_block g (Block v (map line_of_dist ds)) = true.
+Proof.
+  intros g v Hlen Hnn. pose proof (zsum_nonneg _ Hnn) as Hz.
+  destruct (Z.eq_dec (zsum (weights (g_backends g))) 0) as [E0 | Hne].
+  - destruct (all_zero_block _ Hlen E0) as (Hd & _ & _). eexists. split; [exact Hd|].
+    unfold oracle_block. cbn [bl_lines]. fold (weights (g_backends g)). rewrite E0. reflexivity.
+  - assert (Hpos : 0 < zsum (weights (g_backends g))) by lia.
+    destruct (rendered_block _ Hlen Hnn Hpos) as (ds & Hd & Hn & Hv).
+    exists ds. split; [exact Hd|].
+    unfold oracle_block. cbn [bl_lines]. fold (weights (g_backends g)). rewrite Hn.
+    assert (E : (zsum (weights (g_backends g)) =? 0) = false) by lia. rewrite E.
+    rewrite Hv, list_eqb_string_refl. cbn [andb]. apply oracle_sound; assumption.
+Qed.
